@@ -191,7 +191,9 @@ def run(c):
     qpsi = 1e-7 * psirange
     wall = E.default_wall(inset=c.get("wall_inset", 0.2))
     poly = np.array(wall)
-    psi_bdry = txs[0][2] if txs else None
+    # psi_bdry is the psi of the first X-point the code can see: the nearest in psi among those that pass the monotonicity test
+    vis = [p for p in txs if (lambda m: m[0] <= 0.001 and m[1] <= 1e-4)(mono_metric(psi, axis, p))] if tos else txs
+    psi_bdry = vis[0][2] if vis else (txs[0][2] if txs else None)
     tx_recs = []
     for p in txs:
         if c.get("notok"):
